@@ -212,11 +212,27 @@ impl Explorer {
         st.status[t] = Status::Running;
         st.turn = Some(t);
         self.sh.cv.notify_all();
+        let t0 = std::time::Instant::now();
         while st.turn.is_some() {
-            st = self.sh.cv.wait(st).unwrap();
+            let (g, _) = self.sh.cv.wait_timeout(st, std::time::Duration::from_secs(1)).unwrap();
+            st = g;
+            if st.turn.is_some() && t0.elapsed() > std::time::Duration::from_secs(STALL_SECS) {
+                // the granted thread runs alone; it neither reached its next lock event nor returned
+                let msg = format!("thread {} did not reach its next lock event or return within {} s after being granted step {} (it runs alone: an endless loop, or a wait on a lock another call still holds)", t, STALL_SECS, st.step);
+                drop(st);
+                match ON_STALL.get() {
+                    Some(h) => h(msg),
+                    None => panic!("{}", msg),
+                }
+                std::process::exit(2);
+            }
         }
     }
 }
+
+pub const STALL_SECS: u64 = 20;
+/// installed by the check that drives the explorer; expected to report and end the process
+pub static ON_STALL: std::sync::OnceLock<Box<dyn Fn(String) + Send + Sync>> = std::sync::OnceLock::new();
 
 impl Drop for Explorer {
     fn drop(&mut self) {
